@@ -31,6 +31,13 @@ Driver
     quara reports must be that earliest-first shape (or a merge of adjacent
     axes of it - a Povm carries no multi-shape, which is not judged).
 
+Exceptions: composing physical operands must not raise.  quara tests its results at atol=1e-13 and is free (C01) to
+reject anything not physical to 1e-14, so an exception counts only when both operands are physical to 1e-14; for a
+"not physically correct" exception the step is re-run on copies that do not demand quara's test and the values are
+judged all the same - wrong values explain the exception (no key of its own), right values leave the exception as
+the finding (class low-probability-outcome when an outcome with eps_zero < p < 1e-2 exists: round-off 1e-16/p of
+sigma/p against atol 1e-13).
+
 Reference algebra (independent of quara's bases): a CP map is the matrix S with
 vec(E(X)) = S vec(X) for ROW-major vec, built by applying the Kraus map to the
 matrix units; E^dagger(M) = unvec(S^H vec(M^dagger))^dagger.
@@ -48,7 +55,8 @@ RULE = ("every type-valid chain pattern [State](Gate|MProcess)*[Povm] of length 
         "also projective / rank-1 with an element orthogonal to the running pure state; MProcesses generic, Lueders-type "
         "U_x sqrt(M_x), or generated from a POVM in back-action mode 0/1/2) and pairwise DIFFERENT outcome counts per measuring "
         "factor; every full parenthesisation evaluated by nested compose_qoperations calls. Plus POVM x mode x state cases "
-        "for generate_mprocess / to_povm. A case is distinct by (pattern, shape, outcome counts, rounded operand parameters) "
+        "for generate_mprocess / to_povm, and threshold cases (a branch of weight 2..30 x eps_zero entering a second measurement, "
+        "eps_zero in {1e-8,1e-6}; outcome probabilities 0, 3e-9 .. 1e-3). A case is distinct by (pattern, shape, outcome counts, rounded operand parameters) "
         "and non-trivial when it contains at least one non-identity operation acting on an asymmetric operand (always true "
         "for the random complex operands) - cases whose operand construction failed are not counted")
 OP = "quara/objects/operators.py:"
@@ -1232,8 +1240,9 @@ def run_gm_case(ctx, hs, J, c_sys, shape_name, comp):
         if not ok:
             continue  # the contract's on_exc decided
         # induces the same POVM
+        J.flagged = set()
         ok, pv = ctx.attempt(mp.to_povm)
-        if ok and J.is_bad(mp):
+        if ok and (J.is_bad(mp) or J.flagged):
             ctx.count("gm:not-judged(generated mprocess already failed its contract)")
         elif ok:
             e = max_diff([B.F.op(v) for v in pv.vecs], Ms)
